@@ -1,13 +1,15 @@
 // Engine `qctree` (C15): drives the real QCPendingTree (chained-bft/context.go) and the real
-// DefaultPaceMaker through the `verif` export shim, one tree per case.
+// DefaultPaceMaker, one tree per case: through the public Smr entry points used by tdpos/xpoa where
+// they exist (Smr.UpdateQcStatus, Smr.UpdateJustifyQcStatus, Smr.EnforceUpdateHighQC, GetHighQC,
+// GetGenericQC) and through the `verif` export shim for the package-private mutators.
 //
 // op lines (also the input of the Lean driver `xvdriver qctree`); ids are small naturals, the
 // initial root is proposal 0 (view 0, no parent); `-` is the nil parent id:
 //
 //	reset                                  fresh tree: Genesis = Root = HighQC = CommitQC = proposal 0; pacemaker view 0
-//	ins <id> <view> <parent|-> <pview>     updateQcStatus(node)            -> ok|err <dump>
-//	high <id>                              updateHighQC(id)                -> ok <dump>
-//	enforce <id>                           enforceUpdateHighQC(id)         -> ok|err <dump>
+//	ins <id> <view> <parent|-> <pview>     Smr.UpdateQcStatus(node) = updateQcStatus(node)   -> ok|err <dump>
+//	high <id>                              updateHighQC(id) (odd ids: via Smr.UpdateJustifyQcStatus) -> ok <dump>
+//	enforce <id>                           Smr.EnforceUpdateHighQC(id)     -> ok|err <dump>
 //	commit <id>                            updateCommit(id)                -> ok <dump>
 //	prop <id> <view> <parent> <pview> <c>  tree part of handleReceivedProposal: pacemaker.AdvanceView(justify);
 //	                                       c=1: updateCommit(parent); updateQcStatus(node)   -> ok|err <dump>
@@ -34,6 +36,7 @@ import (
 	"strings"
 
 	bft "github.com/xuperchain/xupercore/kernel/consensus/base/driver/chained-bft"
+	bftpb "github.com/xuperchain/xupercore/kernel/consensus/base/driver/chained-bft/pb"
 	"github.com/xuperchain/xupercore/lib/logs"
 	"xv/xvlib"
 )
@@ -76,6 +79,7 @@ func optStr(n int) string {
 type world struct {
 	tree *bft.QCPendingTree
 	pm   *bft.DefaultPaceMaker
+	smr  *bft.Smr // the public entry points used by tdpos/xpoa (UpdateQcStatus, UpdateJustifyQcStatus, EnforceUpdateHighQC) go through it
 	// oracle bookkeeping (per case)
 	gone     map[int]bool // ids that were stored and legitimately dropped (pruned by commit / expired orphan)
 	accepted map[int]bool // ids whose ins returned ok
@@ -97,7 +101,10 @@ func newWorld() *world {
 	root := &bft.ProposalNode{In: initQC}
 	tree := &bft.QCPendingTree{Genesis: root, Root: root, HighQC: root, CommitQC: root,
 		OrphanList: list.New(), OrphanMap: map[string]bool{}, Log: logger}
-	return &world{tree: tree, pm: &bft.DefaultPaceMaker{}, gone: map[int]bool{}, accepted: map[int]bool{}}
+	pm := &bft.DefaultPaceMaker{}
+	// no network, no crypto, no election: the ops below never reach them
+	smr := bft.NewSmr("xv", "xv-node", logger, nil, nil, pm, &bft.DefaultSaftyRules{QcTree: tree, Log: logger}, nil, tree)
+	return &world{tree: tree, pm: pm, smr: smr, gone: map[int]bool{}, accepted: map[int]bool{}}
 }
 
 // snap is what the oracle and the canonical dump are computed from.
@@ -117,13 +124,14 @@ type snap struct {
 	rootView                      int64
 	genesis                       int
 	markerViews                   map[string]int64
+	kids                          map[int][]int // sons of every node object of the tree below Root
 }
 
 const walkLimit = 4000
 
 func takeSnap(x *world) *snap {
 	t := x.tree
-	s := &snap{mainCnt: map[int]int{}, orphCnt: map[int]int{}, view: map[int]int64{}, parentID: map[int]int{}, orphRootOf: map[int]int{}}
+	s := &snap{mainCnt: map[int]int{}, orphCnt: map[int]int{}, view: map[int]int64{}, parentID: map[int]int{}, orphRootOf: map[int]int{}, kids: map[int][]int{}}
 	s.root, s.high, s.gen, s.lock, s.commit = nodeID(t.Root), nodeID(t.HighQC), nodeID(t.GenericQC), nodeID(t.LockedQC), nodeID(t.CommitQC)
 	s.genesis = nodeID(t.Genesis)
 	if t.HighQC != nil {
@@ -168,6 +176,7 @@ func takeSnap(x *world) *snap {
 				s.fEntries = append(s.fEntries, e)
 			} else {
 				s.tEntries = append(s.tEntries, e)
+				s.kids[id] = append(s.kids[id], sons...)
 			}
 		}
 	}
@@ -276,10 +285,26 @@ func check(x *world, op []string, okAns bool, before, after *snap) []viol {
 		}
 	}
 	// 4. nothing is lost except by commit pruning / orphan expiry; an accepted proposal is stored
+	keep := map[int]bool{} // what a commit must keep: the subtree (before) of the new Root
+	if after.root != before.root {
+		var mark func(id, depth int)
+		mark = func(id, depth int) {
+			if keep[id] || depth > walkLimit {
+				return
+			}
+			keep[id] = true
+			for _, c := range before.kids[id] {
+				mark(c, depth+1)
+			}
+		}
+		mark(after.root, 0)
+	}
 	for id := range before.mainCnt {
 		if after.stored(id) == 0 {
-			if op[0] == "commit" || op[0] == "prop" {
+			if (op[0] == "commit" || op[0] == "prop") && after.root != before.root && !keep[id] {
 				x.gone[id] = true
+			} else if op[0] == "commit" || op[0] == "prop" {
+				add("proposal-lost:commit", "proposal %d, a descendant of the new Root %d, was dropped by the commit", id, after.root)
 			} else {
 				add("proposal-lost:tree", "proposal %d left the tree during %s", id, op[0])
 			}
@@ -334,6 +359,13 @@ func check(x *world, op []string, okAns bool, before, after *snap) []viol {
 			info("info:marker-outside-tree")
 			break
 		}
+	}
+	// the public accessors of Smr report the same markers as the tree
+	if hq := x.smr.GetHighQC(); hq == nil || idNum(hq.GetProposalId()) != after.high {
+		add("smr-accessor-mismatch", "Smr.GetHighQC disagrees with the tree's HighQC %d", after.high)
+	}
+	if gq := x.smr.GetGenericQC(); (gq == nil) != (after.gen < 0) || (gq != nil && idNum(gq.GetProposalId()) != after.gen) {
+		add("smr-accessor-mismatch", "Smr.GetGenericQC disagrees with the tree's GenericQC %s", optStr(after.gen))
 	}
 	// 6. HighQC view never decreases except by explicit rollback
 	if op[0] != "enforce" && op[0] != "reset" && after.highView < before.highView {
@@ -393,7 +425,8 @@ func apply(x *world, f []string) (status string) {
 		if !ok {
 			return ""
 		}
-		if err := t.VerifUpdateQcStatus(n); err != nil {
+		// Smr.UpdateQcStatus = ledger-state bookkeeping + qcTree.updateQcStatus
+		if err := x.smr.UpdateQcStatus(n); err != nil {
 			return "err"
 		}
 		return "ok"
@@ -419,7 +452,13 @@ func apply(x *world, f []string) (status string) {
 		}
 		switch f[0] {
 		case "high":
-			t.VerifUpdateHighQC(idBytes(id))
+			if id%2 == 0 {
+				t.VerifUpdateHighQC(idBytes(id))
+			} else {
+				// Smr.UpdateJustifyQcStatus = vote bookkeeping + qcTree.updateHighQC(justify id)
+				x.smr.UpdateJustifyQcStatus(&bft.QuorumCert{VoteInfo: &bft.VoteInfo{ProposalId: idBytes(id)},
+					SignInfos: []*bftpb.QuorumCertSign{{Address: "xv-voter"}}})
+			}
 			return "ok"
 		case "vote":
 			n := t.DFSQueryNode(idBytes(id))
@@ -430,7 +469,7 @@ func apply(x *world, f []string) (status string) {
 			t.VerifUpdateHighQC(idBytes(id))
 			return "ok"
 		case "enforce":
-			if err := t.VerifEnforceUpdateHighQC(idBytes(id)); err != nil {
+			if err := x.smr.EnforceUpdateHighQC(idBytes(id)); err != nil {
 				return "err"
 			}
 			return "ok"
